@@ -239,13 +239,21 @@ def classify_string_render(a, b):
         if kind != 'str':
             return None
         for unit in cs[1:-1]:
-            for _, cls in unit:
-                if cls == 'K':
-                    k += 1
-                elif cls == 'R':
-                    r += 1
-                elif cls == 'I':
-                    i += 1
-                else:
-                    return None
+            # one unit = one character of the string (an escape sequence such as \u00e9 counts once; the high half of a
+            # surrogate pair is not counted, its low half is)
+            txt = ''.join(c for c, _ in unit)
+            if len(txt) == 6 and txt.startswith('\\u') and 0xD800 <= int(txt[2:], 16) <= 0xDBFF:
+                continue
+            classes = {cls for _, cls in unit}
+            if len(classes) != 1:
+                return None
+            cls = classes.pop()
+            if cls == 'K':
+                k += 1
+            elif cls == 'R':
+                r += 1
+            elif cls == 'I':
+                i += 1
+            else:
+                return None
     return k, r, i
